@@ -2,7 +2,7 @@
 follows rel's documented contract for the calls websocket-client makes:
   read(sock, cb)                 cb() when sock is readable; registration persists while cb returns true
   timeout(sec, cb, *args)        cb(*args) after sec; re-armed while cb returns true
-  buffwrite(sock, data, sender, onerror)   write data with sender; onerror(exc) on failure
+  buffwrite(sock, data, sender, onerror)   queue data; written with sender from the loop; onerror(exc) on failure, from the loop
   signal(signum, cb), abort(), dispatch()
 It is a STUB and reported as such; exceptions escaping a callback end dispatch() (rel's own behaviour
 in that case is not modelled, and no property check relies on it)."""
@@ -14,6 +14,7 @@ class SimRel:
         self.w = world
         self.k = world.k
         self.reads = []  # [sock, cb]
+        self.writes = []  # [sock, data, sender, onerror] queued by buffwrite
         self.timers = []  # [due, seq, cb, args, sec]
         self._seq = 0
         self.aborted = False
@@ -32,16 +33,24 @@ class SimRel:
         self.k.ev("rel_timeout", float(sec))
 
     def buffwrite(self, sock, data, sender, onerror):
-        try:
-            if isinstance(data, str):
-                data = data.encode("utf-8")
-            while data:
-                n = sender(sock, data)
-                data = data[n:]
-        except SimAbort:
-            raise
-        except Exception as e:  # noqa
-            onerror(e)
+        """rel queues the data and writes it from its own loop; a failing write reaches onerror from there - never from
+        inside the caller (who may hold the connection's send lock)."""
+        if isinstance(data, str):
+            data = data.encode("utf-8")
+        self.writes.append([sock, bytes(data), sender, onerror])
+        self.k.ev("rel_buffwrite", len(data))
+
+    def _flush_writes(self):
+        while self.writes:
+            sock, data, sender, onerror = self.writes.pop(0)
+            try:
+                while data:
+                    n = sender(sock, data)
+                    data = data[n:]
+            except SimAbort:
+                raise
+            except Exception as e:  # noqa
+                onerror(e)
 
     def signal(self, signum, cb):
         self.signals[signum] = cb
@@ -56,7 +65,9 @@ class SimRel:
             ss = s._sim_sock() if hasattr(s, "_sim_sock") else None
             if ss is None or ss.closed:
                 continue
-            if ss._sim_readable() or (hasattr(s, "pending") and s.pending()):
+            # a descriptor-based loop sees the descriptor only: bytes already decrypted inside an SSL object do not make it
+            # readable (the library has to ask pending() itself)
+            if ss._sim_readable():
                 out.append(r)
         return out
 
@@ -67,6 +78,9 @@ class SimRel:
         k = self.k
         k.ev("rel_dispatch")
         while not self.aborted:
+            if self.writes:
+                self._flush_writes()
+                continue
             # forget closed sockets
             self.reads = [r for r in self.reads if not (hasattr(r[0], "_sim_sock") and r[0]._sim_sock().closed)]
             if not self.reads and not self.timers:
@@ -75,7 +89,9 @@ class SimRel:
             ticks = None if due is None else max(0, due - k.now)
             if not self.reads and due is None:
                 break
-            k.wait(lambda: bool(self._ready()) or self._any_closed(), ticks, "rel")
+            k.wait(lambda: bool(self._ready()) or self._any_closed() or bool(self.writes), ticks, "rel")
+            if self.writes:
+                continue
             fired = False
             for r in self._ready():
                 fired = True
